@@ -176,6 +176,8 @@ def plan(tier, seed):
                 jobs.append({'space': tool, 'kind': kind, 'shard': i,
                              'of': 4 if tier == 'quick' else 24,
                              'tier': tier, 'weight': 100})
+    jobs.append({'space': 'sequence', 'kind': 'none', 'tier': tier,
+                 'weight': 100})
     return jobs
 
 
@@ -234,10 +236,92 @@ def run_tool(fn, args, **kw):
         return '%s: %s' % (type(e).__name__, str(e)[:120]), buf.getvalue()
 
 
+def run_sequence(acc, P, gen, cfg):
+    """Several tool runs in ONE process, for different services: every run
+    is judged on its own input.  Service A renamed svc:old; for service B
+    svc:old is a current policy; service C has never heard of it."""
+    def dep(name, cs):
+        return P.DeprecatedRule(name, cs, deprecated_reason='r',
+                                deprecated_since='s')
+    services = {
+        'A': [P.RuleDefault('svc:new', 'role:a',
+                            deprecated_rule=dep('svc:old', 'role:a')),
+              P.RuleDefault('svc:b', 'role:b')],
+        'B': [P.RuleDefault('svc:old', 'role:c'),
+              P.RuleDefault('svc:b', 'role:b')],
+        'C': [P.RuleDefault('svc:b', 'role:b')],
+    }
+    files = [{'svc:old': 'role:d'}, {'svc:old': 'role:z', 'svc:b': '@'},
+             {'svc:b': 'role:d'}, {}]
+    tools = ('upgrade', 'convert')
+    runs = [(sv, f, t) for sv in services for f in range(len(files))
+            for t in tools]
+    for first in runs:
+        for second in runs:
+            if first[0] == second[0]:
+                continue
+            for sv, fi, tool in (first, second):
+                defaults = services[sv]
+                f = files[fi]
+                names = sorted({d.name for d in defaults} | set(f) -
+                               ({'svc:old'} if sv == 'A' else set()))
+                w = world.FileWorld()
+                try:
+                    acc.ev()
+                    if tool == 'upgrade':
+                        w.write('in.yaml', world.dumps_policy(f))
+                        with world.entry_points(policies={'ns': defaults}):
+                            err, _ = run_tool(
+                                gen.upgrade_policy,
+                                ['--policy', w.path('in.yaml'),
+                                 '--namespace', 'ns', '--output-file',
+                                 w.path('out'), '--format', 'yaml'],
+                                conf=cfg.ConfigOpts())
+                        a = vector(P, defaults,
+                                   {'policy.yaml': world.dumps_policy(f)},
+                                   names)
+                        b = None if err else vector(
+                            P, defaults, {'policy.yaml': w.read('out')},
+                            names)
+                    elif tool == 'convert':
+                        w.write('in.json', json.dumps(f))
+                        with world.entry_points(policies={'ns': defaults}):
+                            err, _ = run_tool(
+                                gen.convert_policy_json_to_yaml,
+                                ['--namespace', 'ns', '--policy-file',
+                                 w.path('in.json'), '--output-file',
+                                 w.path('out.yaml')], conf=cfg.ConfigOpts())
+                        a = vector(P, defaults,
+                                   {'policy.json': json.dumps(f)}, names)
+                        b = None if err else vector(
+                            P, defaults, {'policy.yaml': w.read('out.yaml')},
+                            names)
+                    else:
+                        continue
+                finally:
+                    w.destroy()
+                acc.case('sequence', True)
+                if err or a != b:
+                    acc.violation(
+                        'sequence|%s|%s' % (tool, 'raises' if err else
+                                            'decision-changed'),
+                        'in one process, after %r: %s for service %s on %r '
+                        '%s' % (first if (sv, fi, tool) == second else
+                                'nothing', tool, sv, f,
+                                err or 'changes decisions'),
+                        {'first': list(first), 'second': list(second)},
+                        a, b or err, 'sequence')
+                acc.outcome('sequence-%s' % tool)
+    acc.sample('sequence', {'services': sorted(services)})
+    return acc.result()
+
+
 def run(job, seed):
     from oslo_config import cfg
     from oslo_policy import generator as gen, policy as P
     acc = core.Acc()
+    if job['space'] == 'sequence':
+        return run_sequence(acc, P, gen, cfg)
     tool = job['space']
     kind = job['kind']
     nmax = BOUNDS[job['tier']]['entries']
